@@ -138,8 +138,11 @@ class Prop:
                 op = {"k": "gc"}
             elif x < 0.94:
                 op = {"k": "drop", "o": o}
-            elif x < 0.97:
+            elif x < 0.955:
                 op = {"k": "restart", "o": o, "proto": r.choice([2, 4, 5])}
+            elif x < 0.97:
+                # a deep clone of an instance joins the population: one more sibling
+                op = {"k": "clone", "o": o, "how": r.choice(["clone", "deepcopy"])}
             else:
                 op = {"k": "read_extra", "o": o, "n": r.randrange(3)}
             ops.append(op)
@@ -347,6 +350,34 @@ class Prop:
                             target["extras"].discard(n)
                     del hlog[:]
                     calls0 = dict(calls)
+                elif k == "clone":
+                    if len(insts) < 5:
+                        import copy as _copy
+                        if op["how"] == "clone":
+                            new_o, e = sut(o.clone_traits, copy="deep")
+                        else:
+                            new_o, e = sut(lambda: o.clone_traits(copy="deep", memo={}))
+                        if e is not None:
+                            raise Violation("C10.clone", "clone_traits(copy='deep') raised %r"
+                                            % (e,), i)
+                        # cloning reads every trait: all defaults are materialised on the
+                        # original by now, and the clone holds equal values of its own
+                        for name in NAMES:
+                            if name not in m:
+                                m[name] = declared_default(cn, name)
+                        serial[0] += 1
+                        new_o.__dict__["_sim_serial"] = serial[0]
+                        insts.append({"obj": new_o, "cls": cn, "model": _copy.deepcopy(m),
+                                      "ident": {}, "extras": set(), "handlers": {},
+                                      # values of traits the original added with add_trait
+                                      # arrive as plain attributes (not as traits)
+                                      "extras_plain": set(target["extras"])
+                                      | set(target.get("extras_plain", ()))})
+                        # (handlers and the instance traits themselves are the original's
+                        # own business: the clone has none of them)
+                        del hlog[:]
+                        calls0 = dict(calls)
+                        target = None
                 elif k == "read":
                     name = op["name"]
                     fresh = name not in m
@@ -487,6 +518,10 @@ class Prop:
                         raise Violation("C10.assign", "v_late = %r: %r / reads %r (%r)"
                                         % (op["v"], e, got, e2), i)
                     target["wild"] = op["v"]
+                elif k == "read_extra" and ("extra%d" % op["n"]) in target.get("extras_plain", ()) \
+                        and ("extra%d" % op["n"]) not in target["extras"]:
+                    # a plain attribute on a clone: assigning it is nobody else's business
+                    sut(setattr, o, "extra%d" % op["n"], 6)
                 elif k == "read_extra":
                     n = "extra%d" % op["n"]
                     v, e = sut(getattr, o, n)
